@@ -21,6 +21,8 @@ ASSUMPTIONS = [
 EPS = 2.0**-52
 SHARD_TIMEOUT = {"quick": 1500, "thorough": 14000}
 
+ANCHORS = [('diffusion_curve/diffusion_curve.py', '* composition.to_molar(self.mixture).first', 'permeate-pressure branch of the curve inversion'), ('diffusion_curve/diffusion_curve.py', 'self.permeate_temperature, self.mixture, composition', 'permeate-temperature branch of the curve inversion')]
+
 
 def shards(tier, seed):
     n = {"quick": 250, "thorough": 12000}[tier]
